@@ -16,6 +16,7 @@ package main
 
 import (
 	"context"
+	"errors"
 	"fmt"
 	"runtime"
 	"strings"
@@ -169,6 +170,7 @@ type speccScn struct {
 	okPct  int      // how often a held request is answered with success
 	xPct   int      // how often (per step) the caller's context is cancelled
 	cons   int      // the statement's consistency level
+	mask   string   // per offered host: 1 usable, 0 a SelectedHost without HostInfo, c a known host whose pool has no connection ("" = all usable)
 }
 
 const (
@@ -193,16 +195,36 @@ type cExec struct {
 // runSpecCancel returns the trace op: specc <kind> <idem> <policy> <a> <nhosts> <events> <requests> <Attempts()> <attempt numbers>
 func runSpecCancel(c speccScn, r *vh.Rng) string {
 	base := settle()
-	var ips []string
+	var ips, order []string
 	hostIdx := map[string]int{}
+	mask := c.mask
+	if mask == "" {
+		mask = strings.Repeat("1", c.nhosts)
+	}
+	usable := 0
+	spare := map[string]bool{}
 	for i := 1; i <= c.nhosts; i++ {
 		ip := fmt.Sprintf("10.0.0.%d", i)
-		ips = append(ips, ip)
+		order = append(order, ip)
 		hostIdx[ip] = i
+		switch mask[i-1] {
+		case '1':
+			ips = append(ips, ip)
+			usable++
+		case 'c':
+			ips = append(ips, ip)
+			spare[ip] = true
+		}
 	}
+	// one more host, reachable but never offered: the session can be created whatever the mask
+	const anchor = "10.0.0.250"
+	ips = append(ips, anchor)
 	cl := memcluster.NewCluster(4, ips...)
+	for ip := range spare {
+		cl.Nodes[ip].DialHook = func(*memcluster.Node, int) error { return errors.New("memcluster: host unreachable") }
+	}
 	ev := make(chan cEvent, 4096)
-	pol := &gatePolicy{scriptPolicy: &scriptPolicy{hosts: map[string]*gocql.HostInfo{}, order: append([]string{}, ips...)}, ev: ev, seen: map[int64]bool{}}
+	pol := &gatePolicy{scriptPolicy: &scriptPolicy{hosts: map[string]*gocql.HostInfo{}, order: order}, ev: ev, seen: map[int64]bool{}}
 	var nreq int64
 	for ip, n := range cl.Nodes {
 		ip := ip
@@ -218,13 +240,22 @@ func runSpecCancel(c speccScn, r *vh.Rng) string {
 	cfg := sess.Config(cl, 4, ips...)
 	cfg.Timeout = 20 * time.Second
 	cfg.PoolConfig.HostSelectionPolicy = pol
+	cfg.ConvictionPolicy = &lenient{spare: spare}
 	s, err := cfg.CreateSession()
 	if err != nil {
 		return "fatal:" + err.Error()
 	}
 	defer s.Close()
-	if !sess.WaitConns(s, c.nhosts, 20*time.Second) {
+	if !sess.WaitConns(s, usable+1, 20*time.Second) {
 		return "fatal:connections not established"
+	}
+	for ip := range spare {
+		for k := 0; k < 20000 && pol.host(ip) == nil; k++ {
+			time.Sleep(100 * time.Microsecond)
+		}
+		if pol.host(ip) == nil {
+			return "fatal:host without connection not known to the policy"
+		}
 	}
 	delay := time.Duration(20+r.Intn(200)) * time.Microsecond
 	st := specStmt(s, c.kind, c.idem, &gocql.SimpleSpeculativeExecution{NumAttempts: c.a, TimeoutDelay: delay}, makePolicy(c.policy))
@@ -266,7 +297,7 @@ func runSpecCancel(c speccScn, r *vh.Rng) string {
 	if c.ctx && c.dl {
 		ctxTok += "d"
 	}
-	head := fmt.Sprintf("specc %s %s %s %d %d %s %d", c.kind, c.idem, c.policy, c.a, c.nhosts, ctxTok, c.cons)
+	head := fmt.Sprintf("specc %s %s %s %d %s %s %d", c.kind, c.idem, c.policy, c.a, mask, ctxTok, c.cons)
 	var exs []*cExec
 	byGid := map[int64]*cExec{}
 	var events []string
@@ -485,7 +516,7 @@ func runSpecCancel(c speccScn, r *vh.Rng) string {
 			x.state = cDone
 		}
 	}
-	fates := []string{"e1", "e2", "e4", "e5", "e7", "e9"}
+	fates := []string{"e1", "e2", "e3", "e4", "e5", "e6", "e7", "e9"}
 	pickFate := func() string {
 		if r.Intn(100) < c.okPct {
 			return "ok"
@@ -769,6 +800,14 @@ func genSpecc(r *vh.Rng) speccScn {
 			tbl[i] = "rrnnntiu"[r.Intn(8)]
 		}
 		c.policy = fmt.Sprintf("custom:%d:%s", r.Intn(7), tbl)
+	}
+	// a third of the runs: some of the offered hosts are not usable (no HostInfo / no connection)
+	if r.Intn(3) == 0 {
+		m := make([]byte, c.nhosts)
+		for i := range m {
+			m[i] = "1111100cc"[r.Intn(9)]
+		}
+		c.mask = string(m)
 	}
 	// sometimes every execution is launched before anything else happens
 	if r.Intn(2) == 0 {
